@@ -613,3 +613,43 @@ package goat
 //@ func goat.NewGoatOverHttp
 //@   requires onConnect != nil && sourceToAddress != nil
 //@   loop 0 invariant[C19.options_keep_wellformed] objinv(goh)
+
+// ---------------------------------------------------------------------------------
+// interceptor chains (chained.go): no chain shape can crash a handler goroutine; elements are the
+// caller's and must be non-nil (API precondition)
+
+//@ func goat.ChainUnaryInterceptor
+//@   requires forall j Int :: 0 <= j && j < len(interceptors) ==> interceptors[j] != nil
+//@ func goat.ChainUnaryInterceptor$2
+//@   nopanic[C12.nopanic C20.nopanic]
+//@   requires s != nil
+//@   captures len(interceptors) >= 1 && (forall j Int :: 0 <= j && j < len(interceptors) ==> interceptors[j] != nil)
+//@ func goat.ChainUnaryInterceptor$2$1
+//@   nopanic[C12.nopanic C20.nopanic]
+//@   requires handler != nil
+//@   captures len(interceptors) >= 1 && (forall j Int :: 0 <= j && j < len(interceptors) ==> interceptors[j] != nil)
+//@ func goat.getChainUnaryHandler
+//@   nopanic[C12.nopanic C20.nopanic]
+//@   requires 0 <= curr && curr < len(interceptors) && finalHandler != nil && (forall j Int :: 0 <= j && j < len(interceptors) ==> interceptors[j] != nil)
+//@   ensures[C20.chain_step_wellformed C12.chain_step_wellformed] result != nil
+//@ func goat.getChainUnaryHandler$1
+//@   nopanic[C12.nopanic C20.nopanic]
+//@   captures 0 <= curr && curr + 1 < len(interceptors) && finalHandler != nil && (forall j Int :: 0 <= j && j < len(interceptors) ==> interceptors[j] != nil)
+
+//@ func goat.ChainStreamInterceptor
+//@   requires forall j Int :: 0 <= j && j < len(interceptors) ==> interceptors[j] != nil
+//@ func goat.ChainStreamInterceptor$2
+//@   nopanic[C12.nopanic C20.nopanic]
+//@   requires s != nil
+//@   captures len(interceptors) >= 1 && (forall j Int :: 0 <= j && j < len(interceptors) ==> interceptors[j] != nil)
+//@ func goat.ChainStreamInterceptor$2$1
+//@   nopanic[C12.nopanic C20.nopanic]
+//@   requires handler != nil
+//@   captures len(interceptors) >= 1 && (forall j Int :: 0 <= j && j < len(interceptors) ==> interceptors[j] != nil)
+//@ func goat.getChainStreamHandler
+//@   nopanic[C12.nopanic C20.nopanic]
+//@   requires 0 <= curr && curr < len(interceptors) && finalHandler != nil && (forall j Int :: 0 <= j && j < len(interceptors) ==> interceptors[j] != nil)
+//@   ensures[C20.chain_step_wellformed C12.chain_step_wellformed] result != nil
+//@ func goat.getChainStreamHandler$1
+//@   nopanic[C12.nopanic C20.nopanic]
+//@   captures 0 <= curr && curr + 1 < len(interceptors) && finalHandler != nil && (forall j Int :: 0 <= j && j < len(interceptors) ==> interceptors[j] != nil)
